@@ -172,3 +172,40 @@ func VHC12Statements() {
 	vh.Assert(gt == faultLine, "C12: the quoted source line is that line: "+st)
 	vh.Assert(gc >= from && gc < from+len(st), "C12: the reported column falls inside the failing statement: "+st)
 }
+
+var c12Calls = []struct {
+	prog string
+	line int
+}{
+	{"function inner() { return 1 }\nfunction mid() {\n  return inner()\n}\nBEGIN {\n  x = nosuchfn(mid())\n}", 6},
+	{"function inner() { return 1 }\nfunction mid() {\n  y = inner()\n  return y\n}\nBEGIN {\n  v = 5\n  x = v(mid(), mid())\n}", 8},
+	{"function a() {\n  return b()\n}\nfunction b() {\n  return 1\n}\nBEGIN { x = [1]\n  x.nosuch(a())\n}", 8},
+	{"function deep(n) {\n  if (n > 0) return deep(n - 1)\n  return 0\n}\nBEGIN {\n  num(deep(3), 2)\n}", 6},
+	{"function ok() { return 1 }\nBEGIN {\n  x = ok()\n\n  y = ok() + nosuch2(ok())\n}", 5},
+}
+
+// VHC12Calls: a call that fails is reported on the line of that call, whatever calls
+// (on other lines) were made while its arguments were evaluated.
+func VHC12Calls() {
+	c := c12Calls[vh.Choose("case", len(c12Calls))]
+	var out vh.Out
+	_, err := lang.EvalProgram(c.prog, nil, nil, &out, false)
+	k := legal(err, "EvalProgram")
+	line, _, text := posOf(err)
+	vh.Reach("failing call reported")
+	vh.Assert(k == ErrRuntime, "C12: the call fails at run time: "+lbl(c.prog))
+	vh.Assert(line == c.line, "C12: a failing call is reported on its own line: "+lbl(c.prog))
+	want := ""
+	n := 1
+	start := 0
+	for i := 0; i <= len(c.prog); i++ {
+		if i == len(c.prog) || c.prog[i] == '\n' {
+			if n == c.line {
+				want = c.prog[start:i]
+			}
+			n++
+			start = i + 1
+		}
+	}
+	vh.Assert(text == want, "C12: the quoted source line is the line of the failing call: "+lbl(c.prog))
+}
